@@ -57,7 +57,9 @@ def random_tier(work, rep, hbin, rich, n):
     for l in r.tagged("@@MISMATCH"):
         m = json.loads(l)
         e = lines[m["line"] - 1]
-        bad.append({"schema": e["text"], "doc": e["doctext"], "want": m["what"], "got": {"ok": e.get("ok", e.get("oks")), "code": e.get("code")}, "abstract": e.get("schema"), "env": e.get("env"), "opt": e.get("opt"), "what": "random"})
+        if m["what"].startswith("position:") != (rep.prop == "C17"):
+            continue          # where an error points is C17's question, and C17 asks only that here
+        bad.append({"schema": e["text"], "doc": e["doctext"], "want": m["what"], "got": {"ok": e.get("ok", e.get("oks")), "code": e.get("code"), "pos": e.get("pos")}, "abstract": e.get("schema"), "env": e.get("env"), "opt": e.get("opt"), "what": "random"})
     if lines:
         rep.sample({"random_schema": lines[len(lines) // 2]["text"], "doc": lines[len(lines) // 2]["doctext"], "ok": lines[len(lines) // 2].get("ok")})
     return bad
